@@ -110,7 +110,49 @@ impl AuthDataSpec {
 }
 
 fn fb(fill: u64, tag: u64, n: usize) -> Vec<u8> {
+    if tag == 4 {
+        return public_key(fill, n);
+    }
     Rng::new(fill, tag, 7).content(n)
+}
+
+/// Credential public keys as authenticators really hold them: COSE_Key encodings (P-256 / ES256, 77
+/// bytes; Ed25519 / EdDSA, 42 bytes), exact, followed by further bytes, or carrying an extra
+/// parameter - besides opaque content.
+fn public_key(fill: u64, n: usize) -> Vec<u8> {
+    let mut r = Rng::new(fill, 4, 7);
+    let style = r.below(6);
+    let opaque = Rng::new(fill, 4, 8).content(n);
+    if style == 0 {
+        return opaque;
+    }
+    let x = r.bytes(32);
+    let y = r.bytes(32);
+    let mut k: Vec<u8> = Vec::new();
+    let extra = style == 3 || style == 4;
+    if style % 2 == 1 {
+        // EC2 / ES256 / P-256
+        k.push(if extra { 0xa6 } else { 0xa5 });
+        k.extend_from_slice(&[0x01, 0x02, 0x03, 0x26, 0x20, 0x01, 0x21, 0x58, 0x20]);
+        k.extend_from_slice(&x);
+        k.extend_from_slice(&[0x22, 0x58, 0x20]);
+        k.extend_from_slice(&y);
+    } else {
+        // OKP / EdDSA / Ed25519
+        k.push(if extra { 0xa5 } else { 0xa4 });
+        k.extend_from_slice(&[0x01, 0x01, 0x03, 0x27, 0x20, 0x06, 0x21, 0x58, 0x20]);
+        k.extend_from_slice(&x);
+    }
+    if extra {
+        k.extend_from_slice(&[0x02, 0x42, 0xaa, 0xbb]); // kid
+    }
+    if k.len() > n {
+        return opaque;
+    }
+    // whatever room is left holds further bytes
+    let rest = n - k.len();
+    k.extend_from_slice(&opaque[..rest]);
+    k
 }
 
 /// GetAssertion flavour: length of the hmac-secret output (low 7 bits of `ext_val`, at most 80).
